@@ -6,6 +6,7 @@ package main
 
 import (
 	"fmt"
+	"github.com/TeaEntityLab/fpGo/v2/zzverif/vsched"
 	"sort"
 
 	fpgo "github.com/TeaEntityLab/fpGo/v2"
@@ -364,10 +365,18 @@ func sets() {
 				f, mk := f, mk
 				ok = ok && call("Set", d, func() {
 					sa, sb := mk(a), mk(b)
-					out[f] = res{sa.Union(sb).KeysSorted(), sa.Intersection(sb).KeysSorted(), sa.Minus(sb).KeysSorted(), sa.IsSubsetByKey(sb), sa.IsSupersetByKey(sb)}
+					un, in, mi := sa.Union(sb), sa.Intersection(sb), sa.Minus(sb)
+					out[f] = res{un.KeysSorted(), in.KeysSorted(), mi.KeysSorted(), sa.IsSubsetByKey(sb), sa.IsSupersetByKey(sb)}
+
 					if !seq(sa.KeysSorted(), keysOf(a)) || !seq(sb.KeysSorted(), keysOf(b)) {
 						bad("Set", "operand-modified", "set operations changed an operand of %s", d)
 					}
+					// the results are the caller's: writing to them (Set is the documented in-place mutator; a result
+					// may be the receiver itself) must not show in any later result of other operands - these
+					// operands are not used again
+					un.SetKV(77, 1)
+					in.SetKV(78, 1)
+					mi.SetKV(79, 1)
 				})
 			}
 			if !ok {
@@ -528,17 +537,78 @@ func norm(m map[string][]int) map[string][]int {
 
 func render(s coll.StreamSet) string { return coll.RenderSS(norm(s.Content())) }
 
+// poison: every interface{} set operation once with an unhashable element (a slice behind interface{}).
+func poison() {
+	bad1 := []interface{}{1, []int{1}, 2}
+	ok1 := []interface{}{1, 2, 3}
+	probe := func(after string) {
+		evals++
+		got := fmt.Sprint(fpgo.MinusForInterface([]interface{}{1, 2, 3}, []interface{}{3}), fpgo.Minus([]int{1, 2, 3}, []int{3}),
+			fpgo.IntersectionForInterface([]interface{}{1, 2, 2}, []interface{}{2, 3}), fpgo.Intersection([]int{1, 2, 2}, []int{2, 3}),
+			fpgo.DistinctForInterface(1, 2, 1), fpgo.Distinct(1, 2, 1), fpgo.IsSubsetForInterface([]interface{}{1}, []interface{}{1, 2}), fpgo.IsSubset([]int{1}, []int{1, 2}),
+			fpgo.StreamForInterface.FromArrayInt([]int{1, 2, 3}).Minus(fpgo.StreamForInterface.FromArrayInt([]int{3})).ToArray(),
+			fpgo.StreamFromArray([]int{1, 2, 3}).Minus(fpgo.StreamFromArray([]int{3})).ToArray(),
+			fpgo.StreamForInterface.FromArrayInt([]int{1, 2, 3}).RemoveItem(2).ToArray(), fpgo.StreamForInterface.FromArrayInt([]int{1, 1}).Distinct().ToArray(),
+			len(fpgo.SetForInterfaceFromArray([]interface{}{1, 2}).Intersection(fpgo.SetForInterfaceFromArray([]interface{}{2})).Keys()))
+		const want = "[1 2] [1 2] [2] [2] [1 2] [1 2] true true [1 2] [1 2] [1 3] [1] 1"
+		if got != want {
+			bad("after-recovered-panic", "law", "after %s (recovered): the fixed probe calls return %s, want %s", after, got, want)
+		}
+	}
+	calls := map[string]func(){
+		"MinusForInterface(ok, unhashable)":        func() { fpgo.MinusForInterface(ok1, bad1) },
+		"MinusForInterface(unhashable, ok)":        func() { fpgo.MinusForInterface(bad1, ok1) },
+		"IntersectionForInterface(ok, unhashable)": func() { fpgo.IntersectionForInterface(ok1, bad1) },
+		"IntersectionForInterface(unhashable, ok)": func() { fpgo.IntersectionForInterface(bad1, ok1) },
+		"DistinctForInterface(unhashable)":         func() { fpgo.DistinctForInterface(bad1...) },
+		"IsSubsetForInterface(ok, unhashable)":     func() { fpgo.IsSubsetForInterface(ok1, bad1) },
+		"IsSubsetForInterface(unhashable, ok)":     func() { fpgo.IsSubsetForInterface(bad1, ok1) },
+		"Stream.Minus(unhashable)":                 func() { fpgo.StreamForInterface.FromArray(ok1).Minus(fpgo.StreamForInterface.FromArray(bad1)) },
+		"Stream.Intersection(unhashable)": func() {
+			fpgo.StreamForInterface.FromArray(ok1).Intersection(fpgo.StreamForInterface.FromArray(bad1))
+		},
+		"Stream.Distinct(unhashable)":                func() { fpgo.StreamForInterface.FromArray(bad1).Distinct() },
+		"Stream.RemoveItem(unhashable)":              func() { fpgo.StreamForInterface.FromArray(ok1).RemoveItem(bad1...) },
+		"SetForInterfaceFromArray(unhashable)":       func() { fpgo.SetForInterfaceFromArray(bad1) },
+		"SliceToMapForInterface(unhashable)":         func() { fpgo.SliceToMapForInterface(true, bad1...) },
+		"StreamSetForInterfaceFromArray(unhashable)": func() { fpgo.StreamSetForInterfaceFromArray(bad1) },
+	}
+	var names []string
+	for n := range calls {
+		names = append(names, n)
+	}
+	sort.Strings(names)
+	for _, n := range names {
+		evals++
+		lib.Catch(calls[n])
+		probe(n)
+	}
+}
+
 func main() {
 	r = lib.NewReport("C05")
 	maxLen := 3
 	if r.Tier == "thorough" {
 		maxLen = 4
 	}
-	slices(maxLen)
-	streams(maxLen)
-	sets()
-	streamSets()
-	mapTwins(maxLen)
+	// three passes under the three sync.Pool policies of the shim; before the second and third pass every
+	// interface{} operation is called once with a value that cannot be hashed (it panics, recovered here)
+	// and a fixed probe battery is evaluated right after each such call
+	for pass := 0; pass < 3; pass++ {
+		vsched.PoolRetain = pass
+		if pass > 0 {
+			poison()
+		}
+		in0 := inputs
+		slices(maxLen)
+		streams(maxLen)
+		sets()
+		streamSets()
+		mapTwins(maxLen)
+		if pass > 0 {
+			inputs = in0 // operand tuples are counted once
+		}
+	}
 	r.Cov["states"] = inputs
 	r.Cov["transitions"] = evals
 	r.Cov["traces_validated_against_impl"] = evals
